@@ -336,7 +336,154 @@ func c32FixedCases() []string {
 	return out
 }
 
+// genViewTx: a transaction of 1..6 outputs built with the repository's constructors; script
+// outputs pay 1..3 recipients who share the view key, other output types (with or without keys)
+// stand before, between and after them.
+// viewtx <view seed> <n> {<type> <mask seed> <k> <spend seed>*k}*n
+func genViewTx(r *Rand) string {
+	n := r.Range(1, 6)
+	var sb strings.Builder
+	fmt.Fprintf(&sb, "viewtx %s %d", Hex(r.Bytes(64)), n)
+	for i := 0; i < n; i++ {
+		ty := common.OutputTypeScript
+		k := r.Range(1, 3)
+		if r.Chance(2, 5) || (i == 0 && r.Chance(1, 3)) {
+			ty = Pick(r, []int{common.OutputTypeWithdrawalSubmit, common.OutputTypeNodePledge, common.OutputTypeNodeAccept,
+				common.OutputTypeWithdrawalClaim, common.OutputTypeNodeRemove})
+			k = r.Intn(3)
+		}
+		fmt.Fprintf(&sb, " %d %s %d", ty, Hex(r.Bytes(64)), k)
+		for j := 0; j < k; j++ {
+			sb.WriteString(" " + Hex(r.Bytes(64)))
+		}
+	}
+	return sb.String()
+}
+
+func execViewTx(t []string, line string) Result {
+	res := Result{Tags: []string{"viewtx"}}
+	a := crypto.NewKeyFromSeed(UnHex(t[1]))
+	A := a.Public()
+	n, _ := strconv.Atoi(t[2])
+	tx := common.NewTransactionV5(common.XINAssetId)
+	type outSpec struct {
+		script bool
+		spends []crypto.Key // private spend keys of the recipients
+	}
+	var specs []outSpec
+	pos := 3
+	for i := 0; i < n; i++ {
+		ty, _ := strconv.Atoi(t[pos])
+		seed := UnHex(t[pos+1])
+		k, _ := strconv.Atoi(t[pos+2])
+		pos += 3
+		sp := outSpec{script: ty == common.OutputTypeScript}
+		var accounts []*common.Address
+		for j := 0; j < k; j++ {
+			b := crypto.NewKeyFromSeed(UnHex(t[pos]))
+			pos++
+			sp.spends = append(sp.spends, b)
+			accounts = append(accounts, &common.Address{PublicSpendKey: b.Public(), PublicViewKey: A})
+		}
+		script := common.NewThresholdScript(1)
+		if k == 1 && i%2 == 1 {
+			script = common.NewThresholdScript(common.Operator64) // the internal-vanish derivation
+		}
+		tx.AddOutputWithType(uint8(ty), accounts, script, common.NewInteger(1), seed)
+		specs = append(specs, sp)
+	}
+	sc := func(k crypto.Key) *edwards25519.Scalar {
+		s, err := edwards25519.NewScalar().SetCanonicalBytes(k[:])
+		if err != nil {
+			panic("harness: non-canonical scalar")
+		}
+		return s
+	}
+	// model input: for every output its ghost keys as discrete logs (confirmed with Key.Public) and
+	// the real hash scalar of (its mask, its real index)
+	var outs, hs strings.Builder
+	nh := 0
+	nScript := 0
+	for i, o := range tx.Outputs {
+		fmt.Fprintf(&outs, " %d %d %d", b2i(specs[i].script), i, len(o.Keys))
+		if len(o.Keys) == 0 {
+			continue
+		}
+		x := crypto.HashScalar(crypto.KeyMultPubPriv(&o.Mask, &a), uint64(i))
+		var xk crypto.Key
+		copy(xk[:], x.Bytes())
+		fmt.Fprintf(&hs, " %d %d %s", i, i, scalarBig(xk))
+		nh++
+		for j, gk := range o.Keys {
+			var pk crypto.Key
+			copy(pk[:], edwards25519.NewScalar().Add(sc(specs[i].spends[j]), x).Bytes())
+			if pk.Public() != *gk {
+				panic("harness: cannot establish the discrete log of a ghost key built by AddOutputWithType")
+			}
+			fmt.Fprintf(&outs, " %s", scalarBig(pk))
+		}
+		if specs[i].script {
+			nScript++
+		}
+	}
+	for _, sp := range specs {
+		if sp.script && len(sp.spends) == 0 {
+			nScript++
+		}
+	}
+	res.LeanIn = fmt.Sprintf("viewtx %d%s %d%s", n, outs.String(), nh, hs.String())
+	out, panicked, _ := Catch(func() string {
+		viewed := tx.ViewGhostKey(&a)
+		var sb strings.Builder
+		sb.WriteString("ok")
+		vi := 0
+		for i, sp := range specs {
+			if !sp.script {
+				continue
+			}
+			if vi >= len(viewed) {
+				res.PropKey, res.PropDesc = "C32:view-recovers-spend-tx", "ViewGhostKey returned fewer outputs than the transaction has script outputs"
+				break
+			}
+			v := viewed[vi]
+			vi++
+			var ks []string
+			for j, b := range sp.spends {
+				B := b.Public()
+				if j >= len(v.Keys) || *v.Keys[j] != B {
+					if res.PropKey == "" {
+						res.PropKey = "C32:view-recovers-spend-tx"
+						res.PropDesc = fmt.Sprintf("output %d of %d (script output number %d): ViewGhostKey does not recover the public spend key of recipient %d", i, len(specs), vi-1, j)
+					}
+					ks = append(ks, "?")
+				} else {
+					ks = append(ks, scalarBig(b).String())
+				}
+			}
+			sb.WriteString(" " + strings.Join(ks, ",") + ";")
+		}
+		if vi != len(viewed) && res.PropKey == "" {
+			res.PropKey, res.PropDesc = "C32:view-recovers-spend-tx", "ViewGhostKey returned more outputs than the transaction has script outputs"
+		}
+		return sb.String()
+	})
+	res.Out, res.Nontrivial = out, !panicked && nScript > 0
+	first := -1
+	for i, sp := range specs {
+		if sp.script && first < 0 {
+			first = i
+		}
+	}
+	if first > 0 {
+		res.Tags = append(res.Tags, "viewtx:non-script-before-script")
+	}
+	return res
+}
+
 func genKeys(r *Rand, i int, tier string) []string {
+	if r.Chance(1, 12) {
+		return []string{genViewTx(r)}
+	}
 	switch r.Intn(12) {
 	case 0, 1, 2:
 		a, b, rr := genScalar(r), genScalar(r), genScalar(r)
@@ -641,6 +788,8 @@ func execKeys(_ *State, line string) Result {
 		res.Out, res.Nontrivial = out, !panicked
 	case "ghost":
 		return execGhost(t, line)
+	case "viewtx":
+		return execViewTx(t, line)
 	default:
 		panic("harness: unknown op " + t[0])
 	}
